@@ -117,3 +117,59 @@ print(json.dumps({"direction_after_history": a._directions[0].tolist(), "directi
     bad = (not np.allclose(r["direction_after_history"], r["direction_fresh"])) or r["perturbation_after_history"] is not None
     return {"reproduced": bool(bad), "input": {"history": "run(q, perturbation=[1,1,0]); run(q)"}, "real_code": r,
             "expected": "same symmetry-breaking direction as on a fresh object"}
+
+
+MF = "phonopy/phonon/mesh.py"
+
+
+def mesh_iteration_restart(run):
+    """Mesh.__iter__ / IterMesh.__iter__: `for f, e in mesh` must start at q-point 0 whatever happened before -- in particular after
+    an iteration that was abandoned (break / exception in the consumer), which leaves the counter in the middle.  Consumers pair the
+    i-th item with weights[i] (DOS, thermal properties), so a resumed iteration silently mis-pairs them.  Entry state: _q_count is an
+    arbitrary integer in [0, n]; obligation: after __iter__ the counter is 0."""
+    mod = pyexec.load(MF)
+    for cls in ("Mesh", "IterMesh"):
+        m = mod.method(cls, "__iter__")
+        pref = MF + ":%s.__iter__" % cls
+        ex = PyExec(mod, run.sink, pref, hooks={"Mesh.run": lambda ex_, st_, a, k: None}, opaque_unknown=True, split=True)
+        st = PState()
+        c, n = z3.Int("old_q_count"), z3.Int("n_qpoints")
+        st.pc += [c >= 0, c <= n, n >= 1]
+        self_ref = st.new(Record(cls, {"_q_count": c, "_qpoints": Opaque("qpoints"), "_frequencies": Opaque("frequencies")}))
+        n0 = len(run.sink.obls)
+        outs = ex.call_function(st, m, [], self_ref=self_ref, cls=cls)
+        if not outs:
+            raise CheckerError("%s.__iter__: no path" % cls)
+        for (s2, fl, v) in outs:
+            got = s2.heap[self_ref.id].attrs.get("_q_count")
+            ob = run.sink.add(pref, "post", list(s2.pc), pyexec.num(got) == 0,
+                              meta={"label": "iteration starts at q-point 0 whatever an earlier (possibly abandoned) iteration left",
+                                    "witness": {"old_q_count": c}})
+            ob.meta["finding_candidate"] = "E19"
+            ob.replay = replay_mesh_iteration
+        run.functions.append({"file": MF, "function": cls + ".__iter__", "line": m.lineno, "sha1": mod.sha(m), "obligations": len(run.sink.obls) - n0})
+
+
+def replay_mesh_iteration(model):
+    import json
+    from pvc import creplay
+    code = r'''
+import json
+import numpy as np
+from phonopy.phonon.mesh import Mesh, IterMesh
+out = {}
+m = Mesh.__new__(Mesh)
+m._qpoints = np.zeros((4, 3)); m._frequencies = np.arange(8.0).reshape(4, 2); m._eigenvectors = None; m._q_count = 0
+for k, (f, e) in enumerate(m):
+    if k == 1:
+        break
+out["Mesh_first_item_after_abandoned_iteration"] = [float(x) for x in next(iter(m))[0]]
+out["Mesh_expected"] = [0.0, 1.0]
+print(json.dumps(out))
+'''
+    rc, out, err = creplay.py_eval(code)
+    if rc != 0:
+        return {"reproduced": False, "reason": err[-400:]}
+    r = json.loads(out.strip().splitlines()[-1])
+    return {"reproduced": r["Mesh_first_item_after_abandoned_iteration"] != r["Mesh_expected"], "input": {"history": "iterate, break after 2 items, iterate again"},
+            "real_code": r, "expected": "a new iteration starts at q-point 0"}
